@@ -88,6 +88,8 @@ class Rewriter:
                 return Sym('len', x)
             if x.op == 'opt':
                 g = x.args[0]
+                if not isinstance(g, Sym):
+                    return self._sum(x.args[1] if g else x.args[2], facts)
                 if g in facts:
                     return self._sum(x.args[1], facts)
                 ng = T.not_(g)
@@ -110,6 +112,9 @@ class Rewriter:
         for p in parts_of(x):
             if isinstance(p, Sym) and p.op == 'opt':
                 g = p.args[0]
+                if not isinstance(g, Sym):
+                    out.extend(p.args[1] if g else p.args[2])
+                    continue
                 ng = T.not_(g)
                 if g in facts:
                     out.extend(p.args[1])
@@ -350,8 +355,13 @@ class Rewriter:
             ng = T.not_(g)
             if isinstance(ng, Sym) and ng in facts:
                 return self.rw(x.args[2], facts)
-            a = self.rw(x.args[1], facts | {g})
-            b = self.rw(x.args[2], facts | ({ng} if isinstance(ng, Sym)
+            # facts only enable simplifications; the context is capped at
+            # two assumptions so that the number of distinct (term,
+            # context) pairs stays quadratic in the number of optional
+            # parts instead of exponential
+            outer = facts if len(facts) < 2 else frozenset()
+            a = self.rw(x.args[1], outer | {g})
+            b = self.rw(x.args[2], outer | ({ng} if isinstance(ng, Sym)
                                             else set()))
             return T.cond(g, a, b)
         if op == 'lin':
